@@ -23,6 +23,15 @@ Definition real_caps : caps :=
 (* MessageBase::has_group_count(bf): static_cast<Field<int,0>*>(bf)->get() > 0, the field
    having been built by Field<int> from a C string = fast_atoi<int> *)
 Definition has_group_count (v : list N) : bool := (0 <? fast_atoi_i32 v)%Z.
+(* ... on the object actually created for field f.  When the generated class of a group count
+   field is not an int class (FIX44 604 NoLegSecurityAltID is typed STRING in the schema while its
+   trait says group/ft_int) the cast reads the first bytes of a std::string object as an int:
+   undefined behaviour, a (practically always positive) pointer fragment.  Modelled as true. *)
+Definition has_group_count_c (c : ctx) (f : N) (v : list N) : bool :=
+  match find_be (c_fields c) f with
+  | Some ty => if is_int_type ty then has_group_count v else true
+  | None => has_group_count v
+  end.
 
 Inductive stop := SEnd | SStall | SDup | SForeign.
 
@@ -64,7 +73,7 @@ Fixpoint dg_elem (fuel : nat) (grp : mbase) (pos off : N) {struct fuel}
             let pos1 := pos + 1 in
             let v := cstr val in
             let g1 := mark_present (add_field_decoder grp tv pos1 v) tv in
-            if t_group tr && has_group_count v then
+            if t_group tr && has_group_count_c c tv v then
               match decode_group fuel' g1 tv off1 with
               | Ok (g2, off2) => dg_elem fuel' g2 pos1 off2
               | Exc e => Exc e | OOB s => OOB s | Diverge => Diverge | Fuel => Fuel
@@ -132,7 +141,7 @@ Definition dec_finish (m : mbase) (off pos : N) (lvp : option N) (lvo : N) : res
 Definition raw_at (off n : N) : list N := firstN n (skipN off (from ++ [0])).
 
 Definition opt_group (m : mbase) (tr : trait) (tv : N) (v : list N) (off : N) : res (mbase * N) :=
-  if t_group tr && has_group_count v then decode_group gfuel m tv off else Ok (m, off).
+  if t_group tr && has_group_count_c c tv v then decode_group gfuel m tv off else Ok (m, off).
 
 Fixpoint dec_loop (fuel : nat) (m : mbase) (off pos : N) (lvp : option N) (lvo : N)
                   (tb : list N) {struct fuel} : res (mbase * N) :=
